@@ -106,7 +106,8 @@ def case(draw):
     if draw(st.integers(0, 3)) == 0:
         config.append(["logging", {"version": 1}])
     for _ in range(draw(st.sampled_from([0, 0, 0, 1, 2]))):
-        config.append([draw(st.sampled_from(["unknown", "extra", "pipelines", "Logging"] + [x for x in NAMES if x not in names][:2])), draw(content)])
+        # unknown sections - also under keys that are not strings, as YAML allows (`1: x`, `null: x`, `true: x`)
+        config.append([draw(st.sampled_from(["unknown", "extra", "pipelines", "Logging", 1, None, True, 2.5] + [x for x in NAMES if x not in names][:2])), draw(content)])
     config = draw(st.permutations(config))
     seen, cfg = set(), []
     for k, v in config:
